@@ -20,7 +20,8 @@ CONSTANTS Impl,      \* "hash" | "skip" | "trie"
           NVal,      \* values 1..NVal
           MaxIter,   \* iterator ids 1..MaxIter
           Masks,     \* event masks (subsets of del=1|rep=2|ins=4) used for notifiers
-          UseFree    \* BOOLEAN: explore the value-release (FREE) notifier
+          UseFree,   \* BOOLEAN: explore the value-release (FREE) notifier
+          Tags       \* user-data tags: the same (scope, events) may be registered once per tag (callers sharing one handler)
 
 (* the key alphabet: one key a prefix of another, shared prefixes, single
    characters, a byte >= 0x80, a 40-character key *)
@@ -28,7 +29,7 @@ Long == [i \in 1..40 |-> IF i = 1 THEN 97 ELSE IF i = 2 THEN 98 ELSE 113]
 KeyStr == << <<97>>, <<97, 98>>, <<97, 98, 99>>, <<97, 98, 100>>, <<98>>, <<128, 122>>, <<126>>, Long >>
 
 VARIABLES dict,    \* [Keys -> 0..NVal]
-          notif,   \* set of [scope, mask, rec, free]   scope 0 = whole map
+          notif,   \* set of [scope, mask, rec, free, tag]   scope 0 = whole map
           iters,   \* [1..MaxIter -> iterator record]
           live     \* FALSE once destroyed
 
@@ -63,7 +64,7 @@ Init == /\ dict = [k \in Keys |-> 0] /\ notif = {} /\ live = TRUE
 -----------------------------------------------------------------------------
 (* Notifier calls.  A call is <<event, key, old, new, ud>>; the identity ud of
    a notifier encodes what it was registered with.                          *)
-Ud(nf) == nf.scope * 1000 + nf.mask * 10 + (IF nf.rec THEN 1 ELSE 0) + (IF nf.free THEN 5 ELSE 0)
+Ud(nf) == nf.scope * 1000 + nf.tag * 100 + nf.mask * 10 + (IF nf.rec THEN 1 ELSE 0) + (IF nf.free THEN 5 ELSE 0)
 
 Fires(nf, ev, k) ==
   /\ ~nf.free
@@ -122,25 +123,36 @@ TraversalOK(seq, stop, p) ==
   /\ \A k \in Scope(p) \ ks : \A r \in ks : ~MustPrecede(k, r)
 IterAll(stop, p) == live /\ UNCHANGED vars
 
-(* notifier registration *)
-NotifyAddRc(scope, mask, rec, free) ==
-  LET nf == [scope |-> scope, mask |-> mask, rec |-> rec, free |-> free] IN
+(* notifier registration: a registration is identified by (scope, events, callback, user data); the harness uses
+   one callback, so the user data is the tag *)
+NF(scope, mask, rec, free, tag) == [scope |-> scope, mask |-> mask, rec |-> rec, free |-> free, tag |-> tag]
+NotifyAddRc(scope, mask, rec, free, tag) ==
   IF scope # 0 /\ free THEN EINVAL
   ELSE IF scope # 0 /\ dict[scope] = 0 /\ Impl = "hash" THEN ENOENT
   ELSE IF scope # 0 /\ dict[scope] = 0 /\ Impl = "skip" THEN EINVAL
-  ELSE IF nf \in notif THEN EEXIST
+  ELSE IF NF(scope, mask, rec, free, tag) \in notif THEN EEXIST
+  ELSE IF free /\ \E nf \in notif : nf.free /\ nf.mask = mask /\ nf.rec = rec THEN EEXIST    \* only one value-release notifier
   ELSE 0
-NotifyAdd(scope, mask, rec, free) ==
+NotifyAdd(scope, mask, rec, free, tag) ==
   /\ live
-  /\ notif' = IF NotifyAddRc(scope, mask, rec, free) = 0
-                THEN notif \cup {[scope |-> scope, mask |-> mask, rec |-> rec, free |-> free]} ELSE notif
+  /\ notif' = IF NotifyAddRc(scope, mask, rec, free, tag) = 0
+                THEN notif \cup {NF(scope, mask, rec, free, tag)} ELSE notif
   /\ UNCHANGED <<dict, iters, live>>
 
-NotifyDelRc(scope, mask, rec, free) ==
-  IF [scope |-> scope, mask |-> mask, rec |-> rec, free |-> free] \in notif THEN 0 ELSE ENOENT
-NotifyDel(scope, mask, rec, free) ==
+(* qb_map_notify_del_2: exactly the registration with that user data *)
+NotifyDelRc(scope, mask, rec, free, tag) ==
+  IF NF(scope, mask, rec, free, tag) \in notif THEN 0 ELSE ENOENT
+NotifyDel(scope, mask, rec, free, tag) ==
   /\ live
-  /\ notif' = notif \ {[scope |-> scope, mask |-> mask, rec |-> rec, free |-> free]}
+  /\ notif' = notif \ {NF(scope, mask, rec, free, tag)}
+  /\ UNCHANGED <<dict, iters, live>>
+
+(* qb_map_notify_del: every registration of that callback for those events on that scope, whatever its user data *)
+SameShape(scope, mask, rec, free) == {nf \in notif : nf.scope = scope /\ nf.mask = mask /\ nf.rec = rec /\ nf.free = free}
+NotifyDelAnyRc(scope, mask, rec, free) == IF SameShape(scope, mask, rec, free) # {} THEN 0 ELSE ENOENT
+NotifyDelAny(scope, mask, rec, free) ==
+  /\ live
+  /\ notif' = notif \ SameShape(scope, mask, rec, free)
   /\ UNCHANGED <<dict, iters, live>>
 
 (* destroy: every value still in the map leaves it *)
@@ -186,15 +198,16 @@ APut       == \E k \in Keys, v \in 1..NVal : Put(k, v)
 AGet       == \E k \in Keys : Get(k)
 ARm        == \E k \in Keys : Rm(k)
 ACount     == Count
-ANotifyAdd == \E s \in NotifShapes : NotifyAdd(s[1], s[2], s[3], s[4])
-ANotifyDel == \E s \in NotifShapes : NotifyDel(s[1], s[2], s[3], s[4])
+ANotifyAdd == \E s \in NotifShapes, t \in Tags : NotifyAdd(s[1], s[2], s[3], s[4], t)
+ANotifyDel == \E s \in NotifShapes, t \in Tags : NotifyDel(s[1], s[2], s[3], s[4], t)
+ANotifyDelAny == \E s \in NotifShapes : NotifyDelAny(s[1], s[2], s[3], s[4])
 ADestroy   == Destroy
 AIterCreate == \E i \in 1..MaxIter, p \in {0} \cup (IF Impl = "trie" THEN Keys ELSE {}) : IterCreate(i, p)
 AIterNext  == \E i \in 1..MaxIter, k \in {0} \cup Keys :
                  /\ IterNextOK(i, k, IF k = 0 THEN 0 ELSE dict[k]) /\ IterNext(i, k)
 AIterFree  == \E i \in 1..MaxIter : IterFree(i)
 
-Next == APut \/ AGet \/ ARm \/ ACount \/ ANotifyAdd \/ ANotifyDel \/ ADestroy
+Next == APut \/ AGet \/ ARm \/ ACount \/ ANotifyAdd \/ ANotifyDel \/ ANotifyDelAny \/ ADestroy
         \/ AIterCreate \/ AIterNext \/ AIterFree
 Spec == Init /\ [][Next]_vars
 
